@@ -42,6 +42,7 @@ class Observer:
         self.inject = inject  # (step, phase) or None
         self.want = set(want)
         self._cur = None
+        self.moves = []  # (step, component index, workplace index) for every placement made by the allocator
 
     def _phase(self, name):
         M = self.M
@@ -84,15 +85,32 @@ class Observer:
                 obs._phase("allocated")
             return o_cost(self_, *a, **k)
 
+        from pDESy.model.base_workplace import BaseWorkplace
+
+        o_place = BaseWorkplace.set_placed_component
+        depth = [0]
+
+        def place(self_, placed_component, *a, **k):
+            if depth[0] == 0 and self_ in obs.M.wps and placed_component in obs.M.comps:
+                obs.moves.append((obs.M.project.time, obs.M.comps.index(placed_component), obs.M.wps.index(self_),
+                                  [int(t.state) for t in obs.M.tasks], [[f._idx for f in t.allocated_facility_list] for t in obs.M.tasks]))
+            depth[0] += 1
+            try:
+                return o_place(self_, placed_component, *a, **k)
+            finally:
+                depth[0] -= 1
+
         BaseProject._BaseProject__update = update
         BaseProject._BaseProject__record = record
         BaseOrganization.add_labor_cost = cost
+        BaseWorkplace.set_placed_component = place
         try:
             yield self
         finally:
             BaseProject._BaseProject__update = o_update
             BaseProject._BaseProject__record = o_record
             BaseOrganization.add_labor_cost = o_cost
+            BaseWorkplace.set_placed_component = o_place
 
 
 LOG_SUFFIXES = ("_record_list", "_id_record", "cost_list")
